@@ -62,6 +62,39 @@ def run(chk, F, tier):
                       cb.loc(c["l"]), witness={"sources": [list(h) for h in hs[:6]]},
                       sample={"rule": "R11", "sink": key, "verdict": "order is hash independent"})
     chk.floor("argument sink sites", n, 8)
+    # file ids are handed out in the order files are first submitted: a loop that submits files must not be driven by hash order
+    import cfgutil
+    MINT = (CA + "::vfs::Vfs::set_file_content", CA + "::vfs::Vfs::set_remote_file_content", CA + "::vfs::Vfs::file_id",
+            CA + "::EmmyLuaAnalysis::update_file_by_uri", CA + "::EmmyLuaAnalysis::update_remote_file_by_uri")
+    nmint = 0
+    for cb in F.bodies.values():
+        if cb.crate not in (CA, "emmylua_ls", "emmylua_check", "emmylua_doc_cli") or "::test" in cb.id or cb.id.endswith("_sorted"):
+            continue
+        sites = [bb for bb, c in cb.calls() if (c.get("r") or c.get("f") or "") in MINT]
+        if not sites:
+            continue
+        succ = cb.succ_map()
+        loops = cfgutil.natural_loops(succ, 0)
+        for h, body in loops.items():
+            if not any(x in body for x in sites):
+                continue
+            for x in sorted(body):
+                t = cb.blocks[x][2]
+                if t[0] != "call" or not (t[1].get("f") or "").endswith("Iterator::next"):
+                    continue
+                nmint += 1
+                a = t[1]["a"][0]
+                it = T._ref_target(cb, a[1][0]) if a[0] in ("c", "m") and len(a[1]) == 1 else None
+                ls = T.query(lambda: T.local(cb, it, x)) if it is not None else set()
+                hs = sorted(l for l in ls if l[0] == "HASH" and l[1].split("::")[-1] not in IGNORED_SOURCE_FNS)
+                key = "mint-loop@%s" % cb.id.replace(CA + "::", "")
+                chk.check(not hs, "R11", key,
+                          "%s submits files to the Vfs in a loop whose order comes from hash iteration (%s): FileIds are handed out in submission order, "
+                          "so the same batch gets different ids -- and a different analysis order -- from run to run" % (
+                              cb.id.split("::")[-1], ["%s:%s %s" % (h_[1].split("::")[-1], h_[2], h_[3].split("::")[-1]) for h_ in hs[:3]]),
+                          cb.loc(t[1]["l"]), witness={"sources": [list(h_) for h_ in hs[:6]]},
+                          sample={"rule": "R11", "sink": key, "verdict": "submission order is hash independent"})
+    chk.floor("file-submitting loops", nmint, 2)
     m = 0
     for fid, what in RET_SINKS:
         b = F.bodies.get(fid)
